@@ -6,6 +6,8 @@ import (
 	"go/constant"
 	"go/token"
 	"go/types"
+	"sort"
+	"strings"
 
 	"golang.org/x/tools/go/ssa"
 )
@@ -544,6 +546,87 @@ type Search struct {
 	StopInstr func(ssa.Instruction) bool
 	// StopEdge: the path may not cross this edge.
 	StopEdge func(from *ssa.BasicBlock, si int) bool
+	// TrackBools makes the search path-sensitive in boolean flag variables
+	// (phi nodes of boolean constants, e.g. `found := false; ...; found = true`):
+	// a branch on a flag whose value is known on the current path is followed
+	// only in the consistent direction.
+	TrackBools bool
+}
+
+type boolEnv map[*ssa.Phi]bool
+
+func (e boolEnv) key() string {
+	if len(e) == 0 {
+		return ""
+	}
+	parts := make([]string, 0, len(e))
+	for p, v := range e {
+		if v {
+			parts = append(parts, p.Name()+"=T")
+		} else {
+			parts = append(parts, p.Name()+"=F")
+		}
+	}
+	sort.Strings(parts)
+	return strings.Join(parts, ",")
+}
+
+func (e boolEnv) enter(pred, succ *ssa.BasicBlock) boolEnv {
+	idx := -1
+	for i, p := range succ.Preds {
+		if p == pred {
+			idx = i
+		}
+	}
+	out := boolEnv{}
+	for k, v := range e {
+		out[k] = v
+	}
+	if idx < 0 {
+		return out
+	}
+	// phis are evaluated simultaneously: read from e, write to out
+	for _, ins := range succ.Instrs {
+		phi, ok := ins.(*ssa.Phi)
+		if !ok {
+			break
+		}
+		if b, isB := phi.Type().Underlying().(*types.Basic); !isB || b.Kind() != types.Bool {
+			continue
+		}
+		in := phi.Edges[idx]
+		if c, ok := ConstBool(in); ok {
+			out[phi] = c
+		} else if src, ok := in.(*ssa.Phi); ok {
+			if v, known := e[src]; known {
+				out[phi] = v
+			} else {
+				delete(out, phi)
+			}
+		} else {
+			delete(out, phi)
+		}
+	}
+	return out
+}
+
+// decide returns (value, known) of a branch condition under env.
+func (e boolEnv) decide(cond ssa.Value) (bool, bool) {
+	neg := false
+	for i := 0; i < 4; i++ {
+		if u, ok := cond.(*ssa.UnOp); ok && u.Op == token.NOT {
+			cond = u.X
+			neg = !neg
+			continue
+		}
+		break
+	}
+	if phi, ok := cond.(*ssa.Phi); ok {
+		if v, known := e[phi]; known {
+			return v != neg, true
+		}
+	}
+	return false, false
 }
 
 // Reach runs the search from the given start points and calls visit for every
@@ -554,22 +637,24 @@ func (s Search) Reach(starts []Point, visit func(ins ssa.Instruction, via *ssa.B
 	type key struct {
 		b   *ssa.BasicBlock
 		via *ssa.BasicBlock
+		env string
 	}
 	seen := map[key]bool{}
 	type item struct {
 		p   Point
 		via *ssa.BasicBlock
+		env boolEnv
 	}
 	var work []item
 	for _, p := range starts {
-		work = append(work, item{p, nil})
+		work = append(work, item{p, nil, boolEnv{}})
 	}
 	for len(work) > 0 {
 		it := work[len(work)-1]
 		work = work[:len(work)-1]
 		b := it.p.Block
 		if it.p.Idx == 0 {
-			k := key{b, it.via}
+			k := key{b, it.via, it.env.key()}
 			if seen[k] {
 				continue
 			}
@@ -587,11 +672,30 @@ func (s Search) Reach(starts []Point, visit func(ins ssa.Instruction, via *ssa.B
 		if stopped {
 			continue
 		}
+		only := -1
+		if s.TrackBools && len(b.Instrs) > 0 {
+			if iff, ok := b.Instrs[len(b.Instrs)-1].(*ssa.If); ok {
+				if v, known := it.env.decide(iff.Cond); known {
+					if v {
+						only = 0
+					} else {
+						only = 1
+					}
+				}
+			}
+		}
 		for si, succ := range b.Succs {
+			if only >= 0 && si != only {
+				continue
+			}
 			if s.StopEdge != nil && s.StopEdge(b, si) {
 				continue
 			}
-			work = append(work, item{Point{succ, 0}, b})
+			env := it.env
+			if s.TrackBools {
+				env = it.env.enter(b, succ)
+			}
+			work = append(work, item{Point{succ, 0}, b, env})
 		}
 	}
 }
